@@ -157,19 +157,22 @@ theorem typeMismatch_never_rows (rx : List Char → List Char → Bool) (db : DB
 form (every `and`/`or` has at least two operands; leaves pair an operator with an operand kind the
 documentation allows), parsing its token text — followed by anything that does not start with
 `and`/`or` — returns exactly that tree and leaves exactly the rest.  `n` is the recursion fuel of
-the model; any fuel above a bound that depends only on the tree works. -/
+the model: three units per printed token suffice (one per level of the disjunction / conjunction /
+atom descent). -/
 theorem parse_print_cond (t : Cond ColRef) (h : nf t = true) :
-    ∃ n0, ∀ n, n0 ≤ n → ∀ rest, NoAnd rest → NoOr rest →
+    ∀ n, 3 * (pr 0 t).length ≤ n → ∀ rest, NoAnd rest → NoOr rest →
       parseDisj n (pr 0 t ++ rest) = .ok (t, rest) :=
   parseDisj_print t h
 
 /-- "projection, optional from, repeated where clauses meaning conjunction": the token text of a
 query (projection `*` or a non-empty column list, optional `from` list, any number of `where`
 clauses, final `.`) parses to exactly that query, the where clauses combined by `whereCond`
-(none ↦ no condition, one ↦ itself, several ↦ their conjunction, not flattened). -/
+(none ↦ no condition, one ↦ itself, several ↦ their conjunction, not flattened).  Fuel: three
+units per token; the driver runs `parseSelect` with `3 * tokens + 10`, so the fuel error of the
+model is unreachable on printed queries. -/
 theorem parse_print_select (proj : Proj) (rels : List String) (ws : List (Cond ColRef))
     (hp : ProjOK proj rels) (hw : ∀ w ∈ ws, nf w = true) :
-    ∃ n0, ∀ n, n0 ≤ n →
+    ∀ n, 3 * (printQuery proj rels ws).length ≤ n →
       parseSelect n (printQuery proj rels ws) = .ok { proj := proj, rels := rels, cond := whereCond ws } :=
   parseSelect_print_aux proj rels ws hp hw
 
